@@ -21,6 +21,10 @@ func (rc *RawConn) DoSlow(method string, raw []byte, splitAt int, pause time.Dur
 		return nil, err
 	}
 	resp, err := http.ReadResponse(rc.br, &http.Request{Method: method})
+	// interim responses (1xx other than 101) precede the real one
+	for err == nil && resp.StatusCode >= 100 && resp.StatusCode < 200 && resp.StatusCode != http.StatusSwitchingProtocols {
+		resp, err = http.ReadResponse(rc.br, &http.Request{Method: method})
+	}
 	if err != nil {
 		return nil, err
 	}
